@@ -58,8 +58,20 @@ pub trait Interface: ErrorHandler {
     /// passed to the error handler, the rest of that message (up to and
     /// including its terminator) is discarded and execution continues with the
     /// next message.
-    async fn run<'a>(&mut self, mut input: &'a [u8], response: &mut impl crate::Write) -> &'a [u8] {
+    async fn run<'a>(&mut self, input: &'a [u8], response: &mut impl crate::Write) -> &'a [u8] {
         let mut header = self.root_node();
+        self.run_from(&mut header, input, response).await
+    }
+
+    /// Like [Interface::run], but starts at the position in the command tree given by
+    /// `path` and stores the position that was reached when it returns. This allows a
+    /// program message to be continued after more data has been received.
+    #[doc(hidden)]
+    async fn run_from<'a>(
+        &mut self, path: &mut &'static tree::Node, mut input: &'a [u8],
+        response: &mut impl crate::Write,
+    ) -> &'a [u8] {
+        let mut header = *path;
 
         while !input.is_empty() {
             let result = parser::parse(self.root_node(), header, input);
@@ -70,6 +82,7 @@ pub trait Interface: ErrorHandler {
             if let Err(ParseError::Incomplete) = result {
                 #[cfg(feature = "defmt")]
                 defmt::trace!("Incomplete Input");
+                *path = header;
                 return input;
             } 
             else if let Err(error) = result {
@@ -85,7 +98,10 @@ pub trait Interface: ErrorHandler {
                         header = self.root_node();
                         continue;
                     }
-                    None => return input,
+                    None => {
+                        *path = header;
+                        return input;
+                    }
                 }
             }
 
@@ -115,6 +131,7 @@ pub trait Interface: ErrorHandler {
 
             input = i;
         }
+        *path = header;
         &[][..]
     }
 
@@ -124,6 +141,8 @@ pub trait Interface: ErrorHandler {
     
         let mut proc_offset = 0;
         let mut read_offset = 0;
+        // The position in the command tree, kept while a message is continued by later reads.
+        let mut path = self.root_node();
     
         loop {
             let count = adapter.read(&mut cmd_buf[read_offset..]).await?;
@@ -137,7 +156,7 @@ pub trait Interface: ErrorHandler {
                 let terminator_pos = read_offset + position;
                 let data = &cmd_buf[proc_offset..=terminator_pos];
     
-                let remaining = self.run(data, &mut res_buf).await;
+                let remaining = self.run_from(&mut path, data, &mut res_buf).await;
 
                 if !res_buf.is_empty() {
                     adapter.write(&res_buf).await?;
@@ -171,6 +190,7 @@ pub trait Interface: ErrorHandler {
                 #[cfg(feature = "defmt")]
                 defmt::warn!("SCPI buffer overflow, resetting buffer");
                 read_offset = 0;
+                path = self.root_node();
             }
         }
     }
